@@ -212,7 +212,7 @@ func New(opts Options) (*Vaxis, error) {
 	vx.queue = make(chan Event, opts.EventQueueSize)
 	vx.screenNext = newScreen()
 	vx.screenLast = newScreen()
-	vx.chClipboard = make(chan string)
+	vx.chClipboard = make(chan string, 1)
 	vx.chSigWinSz = make(chan os.Signal, 1)
 	vx.chSigKill = make(chan os.Signal, 1)
 	vx.chCursorPos = make(chan [2]int, 1)
@@ -1112,12 +1112,10 @@ func (vx *Vaxis) handleSequence(seq ansi.Sequence) {
 				log.Error("couldn't decode OSC 52: %v", err)
 				return
 			}
-			ctx, cancel := context.WithTimeout(context.Background(), 10*time.Millisecond)
-			defer cancel()
-			select {
-			case vx.chClipboard <- string(b):
-			case <-ctx.Done():
-			}
+			// Never hold up the input loop for a reply nobody may be
+			// waiting for: every other reply (a cursor position its
+			// requester waits 50ms for, say) queues behind this one
+			sendReply(vx.chClipboard, string(b))
 		}
 		if strings.HasPrefix(string(seq.Payload), "176") {
 			vals := strings.Split(string(seq.Payload), ";")
@@ -1606,6 +1604,9 @@ func (vx *Vaxis) ClipboardPush(s string) {
 // a context to set a deadline for this function to return. An error will be
 // returned if the context is cancelled.
 func (vx *Vaxis) ClipboardPop(ctx context.Context) (string, error) {
+	// Drop a reply which came too late for an earlier request, or which
+	// nobody asked for
+	discardReply(vx.chClipboard)
 	_, _ = io.WriteString(vx.console, osc52pop)
 	select {
 	case str := <-vx.chClipboard:
